@@ -364,6 +364,8 @@ inductive Ty where
   | struct (ms : List (String × Bool × Ty))                -- members: name, key is Optional[…], value type
   | var (ts : List Ty)
   | opt (t : Ty)
+  | notUndef (t : Ty)
+  | alias (t : Ty)                -- a type alias (its own `Name()`, no constructor); membership is the resolved type's
   | any | undef | bool | default | never
   deriving Repr, Inhabited
 
@@ -456,7 +458,8 @@ mutual
 /-- `px.IsInstance` on the alphabet: IntegerType.IsInstance (bounds), scStringType.IsInstance (character count),
     FloatType.IsInstance (a float within the effective bounds; never NaN), NumericType.IsInstance (an integer or a float),
     EnumType.IsInstance (case-sensitive member; no values = any string), ArrayType (every element), VariantType (some
-    member), OptionalType (undef or the contained type), Any, Undef, Boolean, Default, unresolved TypeReference (nothing),
+    member), OptionalType (undef or the contained type), NotUndefType (not undef and the contained type), TypeAliasType (the
+    resolved type; aliases are not recursive here), Any, Undef, Boolean, Default, unresolved TypeReference (nothing),
     TupleType without size, HashType (size, every key and value), StructType (every member found or optional, its value an
     instance, and `matched == Len()`);
     for the constructors' own parameter types also the case-insensitive Enum and Pattern[/IntegerPattern/].
@@ -482,6 +485,8 @@ def inst : Ty → Val → Bool
     | _ => false
   | .var ts, v => instAny ts v
   | .opt t, v => match v with | .undef => true | _ => inst t v
+  | .notUndef t, v => match v with | .undef => false | _ => inst t v
+  | .alias t, v => inst t v
   | .any, _ => true
   | .undef, v => match v with | .undef => true | _ => false
   | .bool, v => match v with | .bool _ => true | _ => false
